@@ -97,6 +97,8 @@ def gen_cycles(ctx, cycles):
         elif live:
             t = live.pop(r.below(len(live)))
             k = r.choice(["join", "join", "tryjoinw", "timedjoinw", "detach"])
+            if k == "detach" and fresh >= 250:
+                k = "join"              # no fresh tag left for the replacement: keep the pool intact
             if k == "detach":
                 # the tag of a detached thread is not reused (it may still have to run)
                 ops.append("detach %d" % t)
